@@ -308,7 +308,7 @@ func init() {
 			"the requesting client holds every news privilege (authorisation is C05)",
 			"the article date is the server clock at the time of the post (taken from the stored article and given to the model as input)",
 		}
-		x.Add(&Family{Name: "histories", Quick: 2000, Thor: 30000, Run: c18History})
+		x.Add(&Family{Name: "histories", Quick: 2000, Thor: 20000, Run: c18History})
 		x.Add(&Family{Name: "long-thread", Quick: 6, Thor: 60, Run: c18LongThread})
 		x.Add(&Family{Name: "yaml-unsafe-strings", Quick: 20, Thor: 200, Run: c18YamlFinding})
 	}
